@@ -1505,7 +1505,7 @@ func (p *Parser) evaluateReturn(ctx context) (Statement, error) {
 
 func (p *Parser) evaluateBreak(ctx context) (Statement, error) {
 	breakToken := p.eat()
-	breakScopes := []scope{SCOPE_FOR, SCOPE_SWITCH}
+	breakScopes := []scope{SCOPE_FOR} // A break needs an enclosing loop, both targets can only leave loops.
 	scopeOk := false
 
 	for _, breakScope := range breakScopes {
